@@ -2280,7 +2280,7 @@ func main() {
 		return
 	}
 	r := run.Rand
-	nh := run.Scale(2500, 16000)
+	nh := run.Scale(2500, 14000) // thorough sized for <= ~15 min on a loaded machine
 	for i := 0; i < nh; i++ {
 		c := genCase(r.Fork(), 6+r.Intn(run.Scale(16, 30)))
 		n := execHistory(run.NewID(), c)
